@@ -203,8 +203,12 @@ func H_two_autoload() {
 	defer symx.VCleanup()
 	symx.VFile(root+"/app/Foo.php", "<?php\nnamespace App;\nclass Foo { public $v = 1; }\n")
 	symx.VFile(root+"/app/Bar.php", "<?php\nnamespace App;\nclass Bar { public $w = 2; }\n")
-	names := []string{"App\\Foo", "App\\Bar"}
-	sel := [2]int{symx.Choose("n0", 2), symx.Choose("n1", 2)}
+	// classes of sub-namespaces that were NOT registered explicitly (their path nodes are created on
+	// first use)
+	symx.VFile(root+"/app/Sub/Qux.php", "<?php\nnamespace App\\Sub;\nclass Qux { public $x = 3; }\n")
+	symx.VFile(root+"/app/Sub/Deep/Baz.php", "<?php\nnamespace App\\Sub\\Deep;\nclass Baz { public $y = 4; }\n")
+	names := []string{"App\\Foo", "App\\Bar", "App\\Sub\\Qux", "App\\Sub\\Deep\\Baz"}
+	sel := [2]int{symx.Choose("n0", 4), symx.Choose("n1", 4)}
 	ops := [2]int{symx.Choose("op0", 2), symx.Choose("op1", 2)} // 0 GetOrLoadClass, 1 LoadPkg
 	vm := runtime.NewVM(parser.NewParser())
 	vm.SetThrowControl(func(acl data.Control) {})
